@@ -26,6 +26,64 @@ def impl_queries(case):
             "vals": {k: t.get(k) for k in ("up", "down", "target")}}
 
 
+def list_offfamily(_):
+    from Bio import Restriction
+    return sorted(str(e) for e in Restriction.AllEnzymes)
+
+
+def impl_offfamily(name):
+    """a generic module and vector class over an enzyme OUTSIDE the theorems' family (ambiguous site, 3' overhang, two
+    cuts): structure() returns a text; when that text compiles at all, validation is total on these classes too"""
+    import re
+    from Bio import Restriction
+    from moclo.core import AbstractModule, AbstractVector
+    from moclo.regex import DNARegex
+    from moclo import errors
+    from harness import implutil
+    enz = getattr(Restriction, name)
+    out = []
+    for base in (AbstractModule, AbstractVector):
+        cls = type(str("O_%s_%s" % (base.__name__, name)), (base,), {"cutter": enz})
+        try:
+            cls(implutil.mk_circular("ACGT", "r"))
+        except (ValueError, NotImplementedError):
+            out.append({"role": base.__name__, "stage": "refused"})       # cutter_check: blunt or unknown cutter
+            continue
+        try:
+            text = cls.structure()
+        except Exception as e:  # noqa
+            out.append({"role": base.__name__, "stage": "structure", "exc": type(e).__name__, "msg": str(e)[:120]})
+            continue
+        try:
+            DNARegex(text)
+        except re.error:
+            out.append({"role": base.__name__, "stage": "uncompilable"})
+            continue
+        site = str(enz.site)
+        from Bio.Seq import Seq
+        rc = str(Seq(site).reverse_complement())
+        for seq in ("ACGTTGCA", "A" * 9 + site + "C" * 30 + rc + "G" * 9, "T" * 7 + rc + "C" * 25 + site + "A" * 5):
+            ent = cls(implutil.mk_circular(seq, "r"))
+            try:
+                v = ent.is_valid()
+            except Exception as e:  # noqa
+                out.append({"role": base.__name__, "stage": "is_valid", "seq": seq, "exc": type(e).__name__, "msg": str(e)[:120]})
+                break
+            if v is False:
+                try:
+                    ent.overhang_start()
+                    out.append({"role": base.__name__, "stage": "query", "seq": seq, "exc": None})
+                    break
+                except errors.InvalidSequence:
+                    pass
+                except Exception as e:  # noqa
+                    out.append({"role": base.__name__, "stage": "query", "seq": seq, "exc": type(e).__name__, "msg": str(e)[:120]})
+                    break
+        else:
+            out.append({"role": base.__name__, "stage": "total"})
+    return out
+
+
 def impl_assembly(case):
     from harness import implutil
     return implutil.run_assembly({"vector": case["vector"], "modules": case["modules"], "typed": False})
@@ -95,6 +153,19 @@ def run(ctx):
                     ctx.violations.append({"signature": "C17:query-on-valid:%s:%s" % (k, e),
                                            "what": "%s on an accepted record raised %s" % (k, e), "input": inp})
                     break
+    # enzymes outside the family: no theorem speaks about them; the implementation alone is asked that structure()
+    # returns a text and that, when the text compiles, validation is total there as well
+    fam = set(e["name"] for e in enzymes)
+    others = common.run_impl(ctx, "C17", "list_offfamily", [None], shards=1)[0]
+    others = [n for n in others if n not in fam]
+    for name, res in zip(others, common.run_impl(ctx, "C17", "impl_offfamily", others)):
+        for r in res:
+            ctx.evaluations += 1
+            ctx.count("off-family:" + r["stage"])
+            if r["stage"] in ("structure", "is_valid", "query"):
+                ctx.violations.append({"signature": "C17:off-family:%s:%s" % (r["stage"], r.get("exc")),
+                                       "what": "generic %s over %s: %s raised %s (%s)" % (r["role"], name, r["stage"], r.get("exc"), r.get("msg")),
+                                       "input": {"offfamily": name, "role": r["role"], "seq": r.get("seq")}})
     # assemblies mixing valid and invalid records
     byenz = {e["name"]: e for e in enzymes}
     acases = []
@@ -171,6 +242,10 @@ def run(ctx):
 def replay(ctx, data):
     v = data.get("violation") or {}
     case = v.get("input") or (data.get("correspondence_disagreements") or [{}])[0].get("case")
+    if case and "offfamily" in case:
+        res = common.run_impl(ctx, "C17", "impl_offfamily", [case["offfamily"]])[0]
+        print("implementation:", res)
+        return 1 if any(r["stage"] in ("structure", "is_valid", "query") for r in res) else 0
     if not case:
         print("nothing to replay")
         return 2
